@@ -3,6 +3,11 @@ package main
 import (
 	"encoding/json"
 	"fmt"
+	"go.etcd.io/bbolt"
+	"os"
+	"runtime"
+	"sync"
+	"time"
 
 	"github.com/akrennmair/updog"
 )
@@ -57,6 +62,7 @@ var boundarySizes = []int{999, 1000, 1001, 4095, 4096, 4097, 65535, 65536, 65537
 
 func runC01(rep *Report, r *Rng, tier string) {
 	defer envProbes(rep, "C01", false)
+	defer concurrentCreators(rep, "C01", 150)
 	rep.Rule = "datasets from DataSpec generator (sizes incl. boundaries; sparse/dense/run/unique distributions; missing columns; empty/trailing-empty rows; ascii/empty/utf8/binary/NUL-in-value strings) x 3 writers x 2 getters x random expression trees (depth<=5, arity 1..4, duplicate operands, absent values, unknown columns); non-trivial = expression with >=2 nodes and a non-zero expected count; distinct by (dataset seed, writer, getter, expression, expected)"
 	o := StartOracle()
 	defer o.Close()
@@ -165,6 +171,7 @@ func runC02(rep *Report, r *Rng, tier string) {
 
 func runC05(rep *Report, r *Rng, tier string) {
 	defer envProbes(rep, "C05", false)
+	defer callerOwnedHandle(rep, "C05")
 	rep.Rule = "AddRow sequences x 3 writers x 2 getters x 0..3 close/reopen cycles; compared: AddRow ids, bolt key set + row counter vs model image (xxhash64 in Lean), GetSchema vs model and spec, per-value and per-row probes (group-by over a unique column); non-trivial = probe with non-zero count; distinct by (dataset, writer, query, expected)"
 	o := StartOracle()
 	defer o.Close()
@@ -424,3 +431,113 @@ func runC03(rep *Report, r *Rng, tier string) {
 }
 
 func init() { runners["C03"] = runC03 }
+
+// concurrentCreators: several writers holding DIFFERENT data flush to the same output path at the same moment (as
+// goroutines; `updog create` processes do the same). Exactly one may succeed, and the file is that writer's index —
+// never a blend. Compared by probing each writer's own marker value.
+func concurrentCreators(rep *Report, prop string, rounds int) {
+	for round := 0; round < rounds; round++ {
+		path := scratch(fmt.Sprintf("race-create-%d.updog", round))
+		os.Remove(path)
+		const n = 8
+		ws := make([]*updog.IndexWriter, n)
+		for k := range ws {
+			ws[k] = updog.NewIndexWriter(path)
+			for i := 0; i < 50+30*k; i++ {
+				ws[k].AddRow(map[string]string{"builder": fmt.Sprintf("b%d", k), "shared": fmt.Sprint(i % 3)})
+			}
+		}
+		errs := make([]error, n)
+		start := make(chan struct{})
+		var wg sync.WaitGroup
+		for k := range ws {
+			wg.Add(1)
+			go func(k int) {
+				defer wg.Done()
+				<-start
+				errs[k] = ws[k].Flush()
+			}(k)
+		}
+		close(start)
+		wg.Wait()
+		var winners []int
+		for k, e := range errs {
+			if e == nil {
+				winners = append(winners, k)
+			}
+		}
+		rep.Count("concurrent-creator-rounds")
+		c := map[string]any{"creators": n, "round": round}
+		if len(winners) != 1 {
+			rep.Violate(Violation{Kind: "schedule", Signature: prop + ":concurrent-creators", What: fmt.Sprintf("%d writers flushed different data to one path at the same time: %d of them reported success", n, len(winners)), Expected: "exactly one", Actual: fmt.Sprint(winners), Case: c})
+			os.Remove(path)
+			os.Remove(path + ".tmp")
+			return
+		}
+		idx, _, err := openIdx(path, false, -1)
+		if err != nil {
+			rep.Violate(Violation{Kind: "schedule", Signature: prop + ":concurrent-creators", What: "the output of the one successful Flush does not open: " + err.Error(), Expected: "opens", Actual: err.Error(), Case: c})
+			os.Remove(path)
+			return
+		}
+		w := winners[0]
+		for k := 0; k < n; k++ {
+			want := "ok 0"
+			if k == w {
+				want = fmt.Sprintf("ok %d", 50+30*k)
+			}
+			if got := safeExecute(idx, &updog.Query{Expr: &updog.ExprEqual{Column: "builder", Value: fmt.Sprintf("b%d", k)}}); got != want {
+				rep.Violate(Violation{Kind: "schedule", Signature: prop + ":concurrent-creators", What: fmt.Sprintf("after writer %d won the race for the path, builder=b%d counts differently from writer %d's own data", w, k, w), Expected: want, Actual: got, Case: c})
+				break
+			}
+		}
+		idx.Close()
+		os.Remove(path)
+		os.Remove(path + ".tmp")
+	}
+}
+
+// callerOwnedHandle: a bbolt handle the CALLER opened (read-only) is handed to OpenIndexFromBoltDatabase several times;
+// Index values made from it are dropped without Close (closing would close the caller's handle) and the garbage
+// collector runs. The handle stays the caller's: a later Index made from it answers like the first.
+func callerOwnedHandle(rep *Report, prop string) {
+	path := scratch("caller-owned.updog")
+	os.Remove(path)
+	var rows []map[string]string
+	for i := 0; i < 300; i++ {
+		rows = append(rows, map[string]string{"k": fmt.Sprint(i % 5), "id": fmt.Sprint(i)})
+	}
+	if _, err := buildIndexFile("mem", rows, path); err != nil {
+		infra("build: %v", err)
+	}
+	defer os.Remove(path)
+	res := watchdog(60*time.Second, func() string {
+		db, err := bbolt.Open(path, 0600, &bbolt.Options{ReadOnly: true, Timeout: 2 * time.Second})
+		if err != nil {
+			return "bolt: " + err.Error()
+		}
+		defer db.Close()
+		q := func() string {
+			idx, err := updog.OpenIndexFromBoltDatabase(db)
+			if err != nil {
+				return "open: " + err.Error()
+			}
+			return safeExecute(idx, &updog.Query{Expr: &updog.ExprEqual{Column: "k", Value: "2"}, GroupBy: []string{"k"}})
+		}
+		first := q()
+		for i := 0; i < 3; i++ {
+			runtime.GC()
+			time.Sleep(30 * time.Millisecond)
+		}
+		second := q()
+		if first != second {
+			return fmt.Sprintf("differs: first %s, after the earlier Index was collected %s", first, second)
+		}
+		return "ok " + first
+	})
+	rep.Eval("caller-owned-handle", true)
+	rep.Count("caller-owned-handle")
+	if want := "ok ok 60 g " + hx("k") + "=" + hx("2") + ":60"; res != want {
+		rep.Violate(Violation{Kind: "history", Signature: prop + ":caller-owned-handle", What: "OpenIndexFromBoltDatabase on the caller's read-only bbolt handle, twice, with a garbage collection in between: " + res, Expected: want, Actual: res, Case: map[string]any{"scenario": "caller-owned read-only handle"}})
+	}
+}
